@@ -52,6 +52,9 @@ func buildRendition(rng *rand.Rand, site *origin.Site, plURL string, container s
 	r.stream = st
 	pl := &origin.Playlist{URL: plURL, TargetDuration: 1, BaseMSN: rng.Intn(3) * rng.Intn(1000)}
 	defer func() {
+		if (nTotal+tagBase)%3 == 0 {
+			pl.CanSkipUntilNS = 6e9 // a server that offers delta updates (but no blocking reload)
+		}
 		pl.OmitRangeStart = r.rangeMode == "nostart"
 		if pl.OmitRangeStart && (nTotal+tagBase)%2 == 1 {
 			pl.RangeStartEvery = 2 + nTotal%3 // explicit offsets again in the middle of the run
@@ -341,7 +344,9 @@ func runC11LL(seed int64, idx int) *c11Result {
 		return res
 	}
 	if ended, wedged, census := run.WaitEndOrWedge(func() int { return srv.Count() + run.Delivered() }, 100, 60*time.Second); !ended {
-		run.C.Close()
+		if !run.CloseWithin(8 * time.Second) {
+			fail("close-blocks", "Close() did not return within 8 s")
+		}
 		run.WaitResult(5 * time.Second)
 		if wedged {
 			fail("ll-wedged", "the client neither ended nor moved for 10 s and all its goroutines are parked: %s", strings.Join(census, " | "))
@@ -487,7 +492,9 @@ func runC11Case(seed int64, idx int) *c11Result {
 	ok := run.WaitResult(40 * time.Second)
 	if !ok {
 		// every script ends (EOS or error) unless it is still being paced; treat as inconclusive
-		run.C.Close()
+		if !run.CloseWithin(8 * time.Second) {
+			fail("close-blocks", "Close() did not return within 8 s")
+		}
 		run.WaitResult(5 * time.Second)
 		res.obs["inconclusive_no_end"]++
 		return res
@@ -537,6 +544,11 @@ func runC11Case(seed int64, idx int) *c11Result {
 			}
 			if base == plKey {
 				kinds = append(kinds, "P")
+				// delta updates are a Low-Latency matter for this client: a reload of a regular
+				// playlist asks for the whole playlist, whatever the server advertises
+				if strings.Contains(u, "_HLS_") {
+					fail("directive-in-regular-mode", "rendition %d: playlist reload %s carries an _HLS_ directive although the stream is not played in Low-Latency mode (CAN-SKIP-UNTIL advertised: %v)", ri, u, r.pl.CanSkipUntilNS > 0)
+				}
 				continue
 			}
 			if mapURL != "" && u == mapURL && !contains(kinds, "I") && (r.pl.MapRangeLen == nil || e.Range == initRange) {
